@@ -47,6 +47,23 @@ fn guess_of(a: &BigDecimal) -> BigDecimal {
     hooks::make_inv_guess(i.magnitude().bits(), s)
 }
 
+/// the guess field of an `inv` line: the real guess (hook); on the back-up path (more than 1074 bits) followed by
+/// `~<bits of (LN_2 * exp10(-frac)) as f32>`, the float kernel recomputed here with the same libm, so that the driver can
+/// run the model of the bookkeeping around it (`invGuessBackup`, theorem `C12_backup_guess_premise`)
+fn guess_field(a: &BigDecimal) -> String {
+    let (i, s) = a.as_bigint_and_exponent();
+    let bits = i.magnitude().bits();
+    let g = hooks::make_inv_guess(bits, s);
+    if bits > 1074 {
+        let approx = bits as f64 * std::f64::consts::LOG10_2;
+        let frac = approx - approx.trunc();
+        let v32 = (std::f64::consts::LN_2 * libm::exp10(-frac)) as f32;
+        format!("{}~{}", show(&g), v32.to_bits())
+    } else {
+        show(&g)
+    }
+}
+
 pub fn generate(rng: &mut Rng, tier: &str, shard: usize, nshards: usize, out: &mut dyn FnMut(String)) {
     let total = if tier == "thorough" { 800_000 } else { 50_000 };
     for i in 0..total {
@@ -79,6 +96,6 @@ pub fn generate(rng: &mut Rng, tier: &str, shard: usize, nshards: usize, out: &m
             continue;
         }
         if do_mirror { out(format!("C12\tmirror\t{}\t{}\t{}\t{}", show(&a), p, mn, mirror(mn))); }
-        else { out(format!("C12\tinv\t{}\t{}\t{}\t{}", show(&a), p, mn, show(&guess_of(&a)))); }
+        else { out(format!("C12\tinv\t{}\t{}\t{}\t{}", show(&a), p, mn, guess_field(&a))); }
     }
 }
